@@ -140,8 +140,16 @@ def oracle_contract(case):
                                min_block_time=env["min_block_time"])
     ops, storage, lazy, out, err = res
     if err is not None:
+        if rv.contains_type(st_t, {"ticket"}) and err.args and err.args[0] == "END":
+            raise Violation("run_code cannot return a storage of type %s that holds a ticket: %r (the code ran to its end)" % (
+                st_t, err.args), case, "storage-ticket-end")
         return "pytezos-failed"
     known = "MAP-empty-type-change" in xc.LAST_TRACE
+    if rv.contains_type(st_t, {"ticket"}):
+        want = ri.value_to_micheline(st_t, ref[1][0][1], "optimized")
+        if storage != want:
+            raise Violation("run_code storage %s, reference %s (storage type %s)" % (storage, want, st_t), case, "storage-value:ticket")
+        return "ok"
     try:
         got = rv.from_micheline(st_t, storage)
     except rv.Malformed as e:
@@ -169,12 +177,19 @@ def cases(draw, size, depth):
 
 @st.composite
 def contract_cases(draw, size, depth):
-    prog = draw(gp.programs(n_inputs=(1, 1), size=size, depth=depth))
+    tickets = draw(st.integers(0, 3)) == 0
+    prog = draw(gp.programs(n_inputs=(1, 1), size=size, depth=depth, profile="tickets" if tickets else "core"))
     pt = prog["inputs"][0]["t"]
     out = gp.types_after(prog["code"], [pt])
     code = list(prog["code"])
+    held = [j for j, t in enumerate(out or []) if rv.contains_type(t, {"ticket"}) and not rv.contains_type(t, {"lambda"})]
     if out is None:
         st_t = rv.T("unit")
+    elif tickets and held:  # the contract stores a ticket-bearing value: storage option T, initially None
+        j = held[0]
+        code += [gp.P("DIG", gp.I(j)), gp.P("SOME")] + ([gp.P("DIP", [gp.P("DROP", gp.I(len(out) - 1))])] if len(out) > 1 else [])
+        return {"mode": "contract", "param_t": pt, "param": prog["inputs"][0]["v"], "storage_t": rv.T("option", out[j]),
+                "storage": {"prim": "None"}, "code": code, "env": xc.env_to_json(draw(gp.env_strategy()))}
     else:
         storable = [t for t in out if rv.is_pushable(t) and rv.is_storable(t) and not rv.contains_type(t, {"lambda"})]
         if not out or not storable:
@@ -218,6 +233,6 @@ def run(h):
     h.coverage_extra["reference_validated"] = "reference interpreter reproduces %d Octez opcode vectors" % passed
     size, depth = ((1, 8), 2) if h.quick else ((1, 16), 3)
     h.run_given(lambda: cases(size, depth), _prop, h.n(70, 4000), shards=16, classify=classify, name="stack")
-    h.run_given(lambda: contract_cases(size, depth), _prop, h.n(8, 1000), shards=16, classify=classify, name="contract")
+    h.run_given(lambda: contract_cases(size, depth), _prop, h.n(14, 1200), shards=16, classify=classify, name="contract")
     if h.stats.extra.get("generator_illtyped", 0) > 0.05 * max(1, h.stats.evaluations):
         raise Inconclusive("too many ill-typed programs generated")
